@@ -299,7 +299,11 @@ def check(case):
                     return outcome(False, "kind-changed", symptom=f"kind-changed:{kind}->{k2}", nontrivial=nontrivial,
                                    detail=f"{n!r} was a {kind}, came back as {k2} | {txt}")
         ic1 = m1.get_initial_conditions()
-        ic2 = m2.get_initial_conditions()
+        try:
+            ic2 = m2.get_initial_conditions()
+        except Exception as exc:  # noqa: BLE001
+            return outcome(False, "different", symptom=f"different:evaluation-raised:{type(exc).__name__}", nontrivial=nontrivial,
+                           detail=f"the re-imported model cannot be evaluated: {type(exc).__name__}: {str(exc)[:200]} | {txt}")
         for v, val in ic1.items():
             if not _close(float(ic2[v]), float(val)):
                 return outcome(False, "different", symptom="different:initial-value", nontrivial=nontrivial,
